@@ -13,9 +13,9 @@ for d in sorted(glob.glob('/verif/seeded/*/')):
             if mm: labels.append(f"{mm.group(1)}: {mm.group(2)}")
     notes=open(os.path.join(d,'notes.md')).read() if os.path.exists(os.path.join(d,'notes.md')) else ''
     first=notes.strip().split('\n')
-    rows.append((m['seed'],m['property'],m.get('suite_green_with_change'),m.get('demo_fails_with_change'),m.get('demo_passes_without_change'),m.get('detected'),m.get('detected_first',m.get('detected')),'; '.join(dict.fromkeys(labels))[:300],m.get('strengthened','')))
+    rows.append((m['seed'],m['property'],m.get('suite_green_with_change'),m.get('demo_fails_with_change'),m.get('demo_passes_without_change'),m.get('detected'),m.get('detected_first',m.get('detected')),'; '.join(dict.fromkeys(labels))[:300],m.get('strengthened','') or ('SUPERSEDED: '+m['superseded'] if m.get('superseded') else '')))
 out=['# Seeded changes','',"Each row: a change written by a fresh sub-agent from the property text alone; confirmed here (suite green with it, demo fails with / passes without); `detected` = the property's quick check exits 1 with a natively replayed VIOLATION when the patch is applied to /repo.",'',
 '| seed | property | suite green | demo fails with | demo passes without | detected | detected at first | reported by | strengthening |','|---|---|---|---|---|---|---|---|---|']
 for r in rows: out.append('| '+' | '.join(str(x) for x in r)+' |')
 open('/verif/seeded/INDEX.md','w').write('\n'.join(out)+'\n')
-print(len(rows),'seeds;',sum(1 for r in rows if r[5]),'detected;',sum(1 for r in rows if r[6]),'at first')
+print(len(rows),'seeds;',sum(1 for r in rows if r[5]),'detected;',sum(1 for r in rows if r[6]),'at first;',sum(1 for r in rows if r[5] is None),'superseded')
